@@ -122,15 +122,16 @@ Definition attr_deprecated (v : ver) (name : string) : bool :=
 Definition template_gate (v : ver) (names : list string) : option string :=
   find (fun n => negb (attr_supported v n)) names.
 
-(* Locate: the attribute filters of the request.  Whether the handler consults is_attribute_supported at all is read
-   from the source (PKGen.Versions.attr_support_sites); today it does not, so every name is let through. *)
+(* Locate: the attribute filters of the request.  Whether _process_locate puts the names through
+   is_attribute_supported before filtering (and refuses with InvalidField) is read from the source
+   (PKGen.Versions.locate_filter_checked; true since fix 1a2a215). *)
 Definition site_checks_supported (h : string) : bool :=
   match find (fun e => String.eqb (fst (fst e)) h) attr_support_sites with
   | Some e => snd (fst e)
   | None => false
   end.
 Definition locate_filter_gate (v : ver) (names : list string) : option string :=
-  if site_checks_supported "_process_locate" then template_gate v names else None.
+  if locate_filter_checked then template_gate v names else None.
 
 (* _get_attributes_from_managed_object: of the candidate names (requested, or every name of the table) those that
    pass `supported` and `not deprecated`; applicability and "has a value" are per-object facts supplied as `held` *)
